@@ -5,6 +5,7 @@ import (
 	"hash"
 
 	"github.com/gauss-project/aurorafs/pkg/boson"
+	"github.com/gauss-project/aurorafs/pkg/verifhook"
 )
 
 var _ Hash = (*Hasher)(nil)
@@ -127,6 +128,7 @@ func (h *Hasher) Reset() {
 
 // processSection writes the hash of i-th section into level 1 node of the BMT tree.
 func (h *Hasher) processSection(i int, final bool) {
+	verifhook.PointArg("bmt.section", i) // no-op unless built with tag verif
 	secsize := 2 * h.segmentSize
 	offset := i * secsize
 	level := 1
@@ -174,6 +176,7 @@ func (h *Hasher) writeNode(n *node, isLeft bool, s []byte) {
 			n.right = s
 		}
 		// the child-thread first arriving will terminate
+		verifhook.PointArg("bmt.join", level) // no-op unless built with tag verif
 		if n.toggle() {
 			return
 		}
@@ -222,6 +225,7 @@ func (h *Hasher) writeFinalNode(level int, n *node, isLeft bool, s []byte) {
 				noHash = false
 			} else {
 				// if again first thread then propagate nil and calculate no hash
+				verifhook.PointArg("bmt.join.final", level) // no-op unless built with tag verif
 				noHash = n.toggle()
 			}
 		} else {
@@ -230,6 +234,7 @@ func (h *Hasher) writeFinalNode(level int, n *node, isLeft bool, s []byte) {
 				// if hash was pushed from right child node, write right segment change state
 				n.right = s
 				// if toggle is true, we arrived first so no hashing just push nil to parent
+				verifhook.PointArg("bmt.join.final", level) // no-op unless built with tag verif
 				noHash = n.toggle()
 			} else {
 				// if s is nil, then thread arrived first at previous node and here there will be two,
